@@ -9,8 +9,9 @@ from .workloads import batch_policy, pick_chunks
 ROLES = ["idle", "owner", "subscriber", "caller", "routed-owner", "both", "unsent-output", "everything"]
 PHASES_RAW = ["between", "mid-prefix", "mid-message", "after-zero-length"]
 PHASES_WS = ["mid-request-line", "mid-headers", "after-101", "mid-ws-header", "mid-ws-payload", "mid-fragmented", "between"]
-ENDINGS_RAW = ["fin", "rst", "oversize", "bad-json", "non-object", "stray-response"]
-ENDINGS_WS = ["fin", "rst", "bad-json", "close-1000", "close-1001", "close-999", "close-1byte", "close-badutf8", "unmasked", "rsv", "bad-opcode", "oversize"]
+ENDINGS_RAW = ["fin", "rst", "oversize", "bad-json", "non-object", "stray-response", "response-send-fails", "response-send-fails-buffer-full"]
+ENDINGS_WS = ["fin", "rst", "bad-json", "close-1000", "close-1001", "close-999", "close-1byte", "close-badutf8", "unmasked", "rsv", "bad-opcode", "oversize",
+              "response-send-fails", "pong-send-fails", "pong-send-fails-buffer-full"]
 
 
 def cells():
@@ -135,6 +136,23 @@ def connend(case, res):
             pl = {"close-1000": struct.pack(">H", 1000), "close-1001": struct.pack(">H", 1001) + b"bye", "close-999": struct.pack(">H", 999),
                   "close-1byte": b"\x03", "close-badutf8": struct.pack(">H", 1000) + b"\xff\xfe"}[ending]
             S.send_bytes(V, wire.ws_frame(8, pl))
+        elif ending in ("response-send-fails", "pong-send-fails", "response-send-fails-buffer-full", "pong-send-fails-buffer-full"):
+            # the daemon's own send to V fails while V's request / ping is being answered: daemon-side close after a send error
+            import errno as E
+            V.healthy = False
+            if ending.endswith("buffer-full"):
+                S.sim.wpol(V.fd, budget=0)
+                wbuf = int(S.cfg.get("CONFIG_MAX_WRITE_BUFFER_SIZE", 5120))
+                n = wbuf // 100 + 8
+            else:
+                S.sim.wpol(V.fd, err=rng.choice([E.EPIPE, E.ECONNRESET]), after=0)
+                n = 1
+            for i in range(n):
+                if ending.startswith("pong"):
+                    S.send_bytes(V, wire.ws_frame(9, b"p" * 120, mask=b"\x01\x02\x03\x04"))
+                else:
+                    S.send_bytes(V, S.frame_for(V, json.dumps({"id": 7000 + i, "method": "info"}).encode()))   # ~150 bytes of response each
+            V.ledger = False
         elif ending == "unmasked":
             S.send_bytes(V, wire.ws_frame(1, body_, mask=None))
         elif ending == "rsv":
